@@ -107,20 +107,24 @@ def r2_colour_blind(ctx):
         ctx.ob(rule, name, '%s uses %s' % (c, '/'.join(sorted(table_by_colour.get(c, {'<none>'})))), table_by_colour.get(c) == want[c],
                found=sorted(table_by_colour.get(c, [])), expected=sorted(want[c]))
     # accumulated summand: MATERIAL_VALUES[piece] + BONUS_TABLES[piece][is_endgame][index_lookup[i]]
-    summands = set()
-    for o in outs:
-        for e in o.events:
-            if e[0] == 'assert' and e[1].startswith('Overflow(Add)'):
-                for s in subterms(e[2]):
-                    if s[0] == 'ovf' and s[1] == 'Add':
-                        summands.add((s[2], s[3]))
+    # leaves of the additions that update the accumulator in one iteration (profile independent: no reliance on overflow checks)
     shapes = set()
-    for a, b in summands:
-        for x in (a, b):
-            names = sorted({s[1].rsplit('::', 1)[-1] for s in subterms(x) if s[0] == 'named'})
-            if names:
-                idx_terms = [s for s in subterms(x) if s[0] == 'idx']
-                shapes.add(tuple(names))
+
+    def add_leaves(t):
+        if t[0] == 'bin' and t[1] in ('Add', 'WAdd', 'AddUnchecked'):
+            return add_leaves(t[2]) + add_leaves(t[3])
+        if t[0] == 'fld' and t[2] == '0' and t[1][0] == 'agg' and t[1][1] == 'tuple':
+            return add_leaves(t[1][4][0][1])       # (a + b, overflowed).0
+        return [t]
+    for o in outs:
+        if o.kind != 'backedge' or not o.locals:
+            continue
+        for l, t in o.locals.items():
+            if isinstance(t, tuple) and t[0] == 'bin' and any(s_[0] == 'named' and s_[1].endswith('MATERIAL_VALUES') for s_ in subterms(t)):
+                for x in add_leaves(t):
+                    names = sorted({s_[1].rsplit('::', 1)[-1] for s_ in subterms(x) if s_[0] == 'named'})
+                    if names:
+                        shapes.add(tuple(names))
     ctx.ob(rule, name, 'summands are MATERIAL_VALUES[piece] and BONUS_TABLES[piece][endgame][index]',
            ('MATERIAL_VALUES',) in shapes and any('BONUS_TABLES' in s for s in shapes), found=sorted(shapes),
            expected=[('MATERIAL_VALUES',), ('BONUS_TABLES', 'SQUARE_TO_*_BONUS_INDEX')])
